@@ -302,6 +302,9 @@ func (m *Machine) exec(fr *frame, in ssa.Instruction) {
 			unsupported("Index on %T", b)
 		}
 	case *ssa.Phi:
+		if fr.prev == specPred {
+			return // bound by speculate
+		}
 		for i, p := range x.Block().Preds {
 			if p == fr.prev {
 				fr.env[x] = m.get(fr, x.Edges[i])
